@@ -14,6 +14,11 @@ if round2:
 Diversity request: an earlier study already collected the most obvious changes in the functions most directly connected with this property. Look further afield this time. Prefer changes in places such as: helper templates and metafunctions (policy selection, prototype matching, index sequences), the heterogeneous variants (HeterCallbackList / HeterEventDispatcher / HeterEventQueue), internal headers (include/eventpp/internal), mixins and utility classes, constructors / assignment / swap, or rarely taken branches. Prefer kinds such as: wrong value category (lvalue vs rvalue, missing or extra std::forward / std::move), wrong template argument or off-by-one in a template recursion, a state field forgotten in one of several sibling operations, a check performed on a stale copy, a condition inverted or weakened in a rarely taken branch, two sibling implementations that drift apart, a resource released a little too early or too late. The two changes must be of different kinds and in different functions.
 '''
 
+if len(sys.argv) > 2 and sys.argv[2] == 'round3':
+    hint = '''
+Diversity request: earlier studies already collected the obvious changes in the functions most directly connected with this property, and also changes of these kinds: missing/extra std::move or std::forward, a check moved outside its lock, a counter or field forgotten in a copy/move constructor, a dropped self-assignment guard, a wrong index in a template recursion. Do NOT repeat those. Look instead at: the interaction of two features (filters or other mixins with queues; removers with heterogeneous containers; the ordered queue list with processIf/processUntil; nested invocation with SingleThreading; a custom Callback type, a custom map, custom Threading primitives); compile-time selected alternatives (enable_if overload pairs, #if branches such as the GCC-4 variant of CallbackList::operator(), const vs non-const overload pairs that must agree); memory-order arguments and atomics; noexcept specifiers and exception paths (what state is left when a user callable or a copy throws half-way); default template arguments and policy defaults; lifetime of temporaries and captured state (by reference vs by value, dangling); the helpers in eventutil.h, forEach/forEachIf, argumentadapter.h, conditionalfunctor.h, anydata.h, anyid.h, orderedqueuelist.h. The two changes must be of different kinds and in different functions, and at least one of them should involve two sites or two features that each look fine alone.
+'''
+
 print(f'''You are given a scratch git worktree of the header-only C++11 library wqking/eventpp at {wt} (work ONLY inside that directory; never touch /repo or /verif, never read /verif). The library headers are in {wt}/include/eventpp, its unit tests (Catch) in {wt}/tests/unittest.
 
 Here is a semantic property the library is supposed to satisfy:
